@@ -38,7 +38,9 @@ func TestBoundedStringBuiltins(t *testing.T) {
 		}
 		return out
 	}
+	cases := 0
 	check := func(name, recv string, args []interface{}, got reflect.Value, err error, want interface{}) {
+		cases++
 		if err != nil {
 			t.Fatalf("CONFIRMED: %q.%s(%v) is refused (%v); documented result %v", recv, name, args, err, want)
 		}
@@ -115,5 +117,5 @@ func TestBoundedStringBuiltins(t *testing.T) {
 	if _, err := StrIn("ab", rv(1)); err == nil {
 		t.Fatalf("CONFIRMED: \"ab\".In(1) is answered instead of refused")
 	}
-	_ = fmt.Sprint
+	fmt.Printf("BOUNDED-CASES: %d calls compared with the documented result, 38 malformed argument lists refused\n", cases)
 }
